@@ -252,6 +252,8 @@ package bpmn
 //@   requires locked ==> held(mu(tracker.lock)) == 2
 //@   requires !locked ==> held(mu(tracker.lock)) == 0
 //@   ensures result0 && held(mu(tracker.lock)) == 2
+//@   ensures [new-tokens-and-a-token-that-ended-wake-the-join] is(tracing.Unwrap(trace), TerminationTrace) || is(tracing.Unwrap(trace), FlowTrace) ==> result1
+//@   ensures [a-pending-wake-up-is-kept] notify ==> result1
 //@   ensures [termination-forgets-the-token] is(tracing.Unwrap(trace), TerminationTrace) ==>
 //@             !has(tracker.flows, tracing.Unwrap(trace).(TerminationTrace).FlowId) &&
 //@             forall k id.Id :: k != tracing.Unwrap(trace).(TerminationTrace).FlowId ==>
@@ -276,8 +278,11 @@ package bpmn
 //@   flag lockeffect
 //@   requires held(mu(tracker.lock)) == 2
 //@   ensures [lock-released-on-shutdown] held(mu(tracker.lock)) == 0
+//@   ensures [the-subscription-is-given-back-when-the-tracker-shuts-down @C07]
+//@             count(Call, code("tracing|ITracer.Unsubscribe")) == old(count(Call, code("tracing|ITracer.Unsubscribe"))) + 1
 //@   loop 1 for
 //@     invariant (locked ==> held(mu(tracker.lock)) == 2) && (!locked ==> held(mu(tracker.lock)) == 0)
+//@     invariant count(Call, code("tracing|ITracer.Unsubscribe")) == old(count(Call, code("tracing|ITracer.Unsubscribe")))
 
 // ---------------------------------------------------------------------------
 // activity.go: results of an answered task (C08): exactly the declared names that the answer carries
@@ -676,6 +681,7 @@ package bpmn
 //@             (f.retry.limit == -1 || f.retry.attempts <= f.retry.limit) &&
 //@             (old(f.retry) != nil ==> f.retry == old(f.retry))
 //@     iter ensures [only-a-retry-repeats-the-request-after-an-error] handler.Mode == RetryMode
+//@     iter ensures [a-token-told-to-withdraw-does-not-go-on-wherever-it-waits] !terminate
 //@     iter ensures [the-retry-budget-is-touched-only-in-a-step-that-read-the-handlers-decision]
 //@             f.retry != old(f.retry) || (f.retry != nil && f.retry.attempts != old(f.retry.attempts)) ==>
 //@             count(Recv, ErrHandler) == old(count(Recv, ErrHandler)) + 1
@@ -1093,9 +1099,8 @@ package bpmn
 //@             lastval(Call, code("event|ISource.RegisterEventConsumer")) == old(wr.eventEgress)
 //@ func newHarness
 //@   prop C10
-//@   requires wr != nil && constructor != nil
 //@   loop 3 range boundaryEvents
-//@     invariant node != nil && wr != nil
+//@     invariant node != nil
 //@     iter ensures [every-boundary-listener-listens-behind-the-harness]
 //@       count(Call, code("event|ISource.RegisterEventConsumer")) == old(count(Call, code("event|ISource.RegisterEventConsumer"))) + 1 &&
 //@       lastval(Call, code("event|ISource.RegisterEventConsumer")) == iface(node)
@@ -1354,6 +1359,7 @@ package bpmn
 //@   flag lockeffect
 //@   requires held(mu(p.complete)) == 2
 //@   ensures [completion-lock-released-on-every-exit] held(mu(p.complete)) == 0
+//@   ensures [the-subscription-is-given-back-on-every-exit] count(Call, code("tracing|ITracer.Unsubscribe")) == old(count(Call, code("tracing|ITracer.Unsubscribe"))) + 1
 //@   ensures [at-most-one-cease-flow-trace] count(Trace, CeaseFlowTrace) <= old(count(Trace, CeaseFlowTrace)) + 1
 //@   ensures [cease-flow-only-after-all-tokens-are-gone] count(Trace, CeaseFlowTrace) == old(count(Trace, CeaseFlowTrace)) + 1 ==>
 //@             isTrace(ev(evlen - 2)) && is(evval(ev(evlen - 2)), CeaseFlowTrace) && isRecv(ev(evlen - 3)) && evch(ev(evlen - 3)) != ctxdone(ctx) &&
@@ -1361,7 +1367,8 @@ package bpmn
 //@   ensures [sender-released-last] isCall(ev(evlen - 1)) && evch(ev(evlen - 1)) == code("tracing|ISenderHandle.Done")
 //@   loop 1 for
 //@     invariant held(mu(p.complete)) == 2 && count(Trace, CeaseFlowTrace) == old(count(Trace, CeaseFlowTrace)) &&
-//@               count(Spawn, code("(*Process).ceaseFlowMonitor$1$1")) == old(count(Spawn, code("(*Process).ceaseFlowMonitor$1$1")))
+//@               count(Spawn, code("(*Process).ceaseFlowMonitor$1$1")) == old(count(Spawn, code("(*Process).ceaseFlowMonitor$1$1"))) &&
+//@               count(Call, code("tracing|ITracer.Unsubscribe")) == old(count(Call, code("tracing|ITracer.Unsubscribe")))
 //@     invariant [only-start-events-that-fired-are-counted] forall a int :: off(startEventsActivated) <= a && a < off(startEventsActivated) + len(startEventsActivated) ==> at(startEventsActivated, a) != nil
 //@     exit ensures [every-start-event-seen-before-waiting-for-tokens] len(startEventsActivated) == len(*p.element.StartEvents())
 
@@ -1677,6 +1684,7 @@ package bpmn
 //@   flag lockeffect
 //@   requires held(mu(sp.complete)) == 2
 //@   ensures [completion-lock-released-on-every-exit] held(mu(sp.complete)) == 0
+//@   ensures [the-subscription-is-given-back-on-every-exit] count(Call, code("tracing|ITracer.Unsubscribe")) == old(count(Call, code("tracing|ITracer.Unsubscribe"))) + 1
 //@   ensures [at-most-one-cease-flow-trace] count(Trace, CeaseFlowTrace) <= old(count(Trace, CeaseFlowTrace)) + 1
 //@   ensures [cease-flow-only-after-all-tokens-are-gone] count(Trace, CeaseFlowTrace) == old(count(Trace, CeaseFlowTrace)) + 1 ==>
 //@             isTrace(ev(evlen - 2)) && is(evval(ev(evlen - 2)), CeaseFlowTrace) && isRecv(ev(evlen - 3)) && evch(ev(evlen - 3)) != ctxdone(ctx) &&
@@ -1684,7 +1692,8 @@ package bpmn
 //@   ensures [sender-released-last] isCall(ev(evlen - 1)) && evch(ev(evlen - 1)) == code("tracing|ISenderHandle.Done")
 //@   loop 1 for
 //@     invariant held(mu(sp.complete)) == 2 && count(Trace, CeaseFlowTrace) == old(count(Trace, CeaseFlowTrace)) &&
-//@               count(Spawn, code("(*subProcess).ceaseFlowMonitor$1$1")) == old(count(Spawn, code("(*subProcess).ceaseFlowMonitor$1$1")))
+//@               count(Spawn, code("(*subProcess).ceaseFlowMonitor$1$1")) == old(count(Spawn, code("(*subProcess).ceaseFlowMonitor$1$1"))) &&
+//@               count(Call, code("tracing|ITracer.Unsubscribe")) == old(count(Call, code("tracing|ITracer.Unsubscribe")))
 //@     invariant [only-start-events-that-fired-are-counted] forall a int :: off(startEventsActivated) <= a && a < off(startEventsActivated) + len(startEventsActivated) ==> at(startEventsActivated, a) != nil
 //@     exit ensures [every-start-event-seen-before-waiting-for-tokens] len(startEventsActivated) == len(*sp.element.StartEvents())
 
